@@ -22,10 +22,13 @@ mutual
   inductive KTy
     | prim (p : Prim)
     | str
-    | enum (holder : Prim) (labels : List Int)
+    | enum (holder : Prim) (labels : List Int) (ext : Ext)
+    | wstr
     | seq (elem : KTy)
     | arr (elem : KTy) (n : Nat)
     | struct (ext : Ext) (ms : KMs)
+    /-- final union (branches carry no key flags) -/
+    | union (disc : Prim) (bs : Bs)
   inductive KMs
     | nil
     | cons (id : Nat) (opt : Bool) (mu : Bool) (key : Bool) (t : KTy) (rest : KMs)
@@ -35,10 +38,12 @@ mutual
   def KTy.erase : KTy → Ty
     | .prim p => .prim p
     | .str => .str
-    | .enum h ls => .enum h ls
+    | .enum h ls x => .enum h ls x
+    | .wstr => .wstr
     | .seq el => .seq el.erase
     | .arr el n => .arr el.erase n
     | .struct x ms => .struct x ms.erase
+    | .union d bs => .union d bs
   def KMs.erase : KMs → Ms
     | .nil => .nil
     | .cons id opt mu _ t rest => .cons id opt mu t.erase rest.erase
@@ -122,14 +127,17 @@ def Ty.storage : Ty → Nat
   | .prim .u64 => 11
   | .prim .f64 => 12
   | .str => 13
-  | .enum _ _ => 0
+  | .enum _ _ _ => 0
+  | .wstr => 13
   | .struct _ _ => 0
-  | .seq el => 100 + (match el with | .prim p => (Ty.prim p).storage | .str => 13 | _ => 0)
-  | .arr el _ => 100 + (match el with | .prim p => (Ty.prim p).storage | .str => 13 | _ => 0)
+  | .union _ _ => 0
+  | .seq el => 100 + (match el with | .prim p => (Ty.prim p).storage | .str => 13 | .wstr => 13 | _ => 0)
+  | .arr el _ => 100 + (match el with | .prim p => (Ty.prim p).storage | .str => 13 | .wstr => 13 | _ => 0)
 
 def Ty.isComplex : Ty → Bool
-  | .enum _ _ => true
+  | .enum _ _ _ => true
   | .struct _ _ => true
+  | .union _ _ => true
   | _ => false
 
 /-- the type a value stored by a member of type `last` is serialized with when the descriptor found is of type
@@ -149,7 +157,7 @@ def combineTy (first last : Ty) : Ty :=
 def descrFits (first last : Ty) : Bool :=
   first.storage == last.storage &&
   !(match first, last with
-    | .enum _ _, .struct _ _ => true
+    | .enum _ _ _, .struct _ _ => true
     | _, _ => false)
 
 /-- the effective (descriptor, value) pairs `serialize_fstruct_type` walks over -/
@@ -258,10 +266,12 @@ mutual
   def tyK : Ty → KTy
     | .prim p => .prim p
     | .str => .str
-    | .enum h ls => .enum h ls
+    | .enum h ls x => .enum h ls x
+    | .wstr => .wstr
     | .seq el => .seq (tyK el)
     | .arr el n => .arr (tyK el) n
     | .struct x ms => .struct x (msK ms)
+    | .union d bs => .union d bs
   def msK : Ms → KMs
     | .nil => .nil
     | .cons id opt mu t r => .cons id opt mu false (tyK t) (msK r)
@@ -290,7 +300,7 @@ mutual
       For a fixed-size key type the maximum serialized size DDS-XTypes 7.6.8 / RTPS 9.6.3.8 decide by is this size. -/
   def fixedSizeTy : Ty → Nat → Option Nat
     | .prim p, pos => some (pos + wPad .v1 p.size pos + p.size)
-    | .enum h _, pos => some (pos + wPad .v1 h.size pos + h.size)
+    | .enum h _ _, pos => some (pos + wPad .v1 h.size pos + h.size)
     | .arr el n, pos => iterOpt (fixedSizeTy el) n pos
     | .struct .final ms, pos => fixedSizeMs ms pos
     | .struct .appendable ms, pos => fixedSizeMs ms pos
